@@ -12,7 +12,7 @@ func init() {
 	register(&propDef{
 		ID: "C10",
 		Info: propInfo{
-			Technique: "atomic check-then-act analysis (interference-mode status propagation) + job-status table + path rules on the queue implementations",
+			Technique:   "atomic check-then-act analysis (interference-mode status propagation) + job-status table + path rules on the queue implementations",
 			Explanation: "Decides the structural part of cancel/purge/close: (R10.1) the job status is written with a plain store only where the job is exclusively owned (construction, before publication in the submit paths, the completion callback after the worker function); every other transition is a compare-and-swap whose *attempted* transitions — enumerated with every Load allowed to return any of the five states, i.e. under interference — go to Closed only from Created/Queued/Finished and to Processing never from Closed, and whose success result is what the caller acts on; (R10.2) the Close result table over the five job states for every Close implementation; (R10.3) in both in-memory Enqueue implementations the closed test precedes every mutation and its true branch returns false without side effect, Close stores true and nothing stores false; (R10.4) Purge closes every removed value that is an io.Closer, and the values it closes must come from the operation that removes them (Values() followed by Purge() are two critical sections: a job enqueued in between is dropped without being cancelled — a known finding on this tree).",
 			NotDecided:  []string{"that a cancelled job's waiters are released under every interleaving (follows from R10.1 + R05 only informally)", "user-supplied adapters' Purge/Values"},
 			Assumptions: []string{"sync/atomic compare-and-swap semantics"},
